@@ -98,6 +98,8 @@ func c10Events() []*c10Event {
 			}
 		}
 	}
+	// the `_` spelling stands for message in every builtin
+	srcs = append(srcs, "set_tag(_)", `set_tag(_, "v")`, "add_key(_, 7)", "add_key(_, nil)", "drop_key(_)", "rename(_, n1)", "rename(n1, _)", "rename(t1, _)", `cast(_, "int")`, "uppercase(_)", "set_measurement(_, true)")
 	srcs = append(srcs, `grok(message, "%{WORD:n1}")`, `grok(a, "%{INT:n1:int}")`, `grok(t1, "%{WORD:a} ?%{WORD:t1}?")`)
 	var out []*c10Event
 	for _, s := range srcs {
@@ -197,6 +199,22 @@ func c10Invariants(pt *input.Point, pr *c10Probes) (string, string, string) {
 				return "I1-script-read-differs-from-output", fmt.Sprintf("key %q: output holds %s, a script reading it sees %v (err %v)", k, drv.Canon(want), res.Trace, res.Err), k
 			}
 		}
+	}
+	// I6: every key has its own index entry (entries are pooled objects: one entry under two keys is
+	// released twice and then handed to two later keys at once)
+	owner := map[*input.TFMeta]string{}
+	for k, m := range pt.Meta {
+		if m == nil {
+			continue
+		}
+		if other, dup := owner[m]; dup {
+			a, b := k, other
+			if b < a {
+				a, b = b, a
+			}
+			return "I6-index-entry-shared-by-two-keys", fmt.Sprintf("keys %q and %q share one index entry object", a, b), a
+		}
+		owner[m] = k
 	}
 	// I4: reading never returns a value the output does not hold
 	for k := range pt.Meta {
@@ -441,7 +459,7 @@ func init() {
 		Level: "model_checking",
 		Rule: "explicit-state search: states = real input.Point values (measurement, time, tags, fields with Go types AND the key index), initial states = 4 points over {a field, t1 tag, message, small-int/float32 fields} covering every supported field type; " +
 			"transitions = 128 one-line scripts run by the real engine on a deep clone (add_key x 5 keys x 7 value kinds, add_key(k), set_tag(k[, literal | attribute expression | other key]), add_key(k, attribute expression), drop_key, rename over all ordered key pairs, cast x 4 types, set_measurement(k,true), default_time, uppercase, grok writing typed captures); " +
-			"breadth-first to depth 3 (thorough 4) with de-duplication on the canonical state; in every state: I1 every output key reads back (Point.Get and a script read) with exactly the stored value and type, I2 no key is tag and field, I3 field types, I4 no read returns a value the output lacks, I5 every output key can be dropped and renamed (one-step look-ahead); plus agreement with the reference point model",
+			"breadth-first to depth 3 (thorough 4) with de-duplication on the canonical state; in every state: I1 every output key reads back (Point.Get and a script read) with exactly the stored value and type, I2 no key is tag and field, I3 field types, I4 no read returns a value the output lacks, I5 every output key can be dropped and renamed (one-step look-ahead), I6 no two keys share one (pooled) index entry object; plus agreement with the reference point model",
 		Assumptions: []string{"level 1 is sharded across workers, de-duplication is per worker (states reached in several subtrees are checked more than once)", "reference tracking stops after an unspecified cell (rename onto an existing key)"},
 		Run:            c10Run,
 		Replay:         c10Replay,
